@@ -182,7 +182,9 @@ def enum_ok(width, variants, use_try):
 
 
 def the_enum_field(c):
-    r = [o for o in all_objects(c["adef"]["objects"]) if o["kind"] == "register"][0]
+    # the register that declares the inline enum (another register may reuse it by name)
+    r = [o for o in all_objects(c["adef"]["objects"]) if o["kind"] == "register" and o["fields"]
+         and "enum" in (o["fields"][0].get("conversion") or {})][0]
     f = r["fields"][0]
     return r, f, f["conversion"]["enum"], f["conversion"]["try"], f["end"] - f["start"]
 
@@ -270,7 +272,7 @@ def check_c07(c, af, a, mf):
         if not ens:
             return None
         from_num = enum_semantics(ens[0])[0]
-        for ff in af["field_sets"][0]["fields"]:
+        for ff in [x for fs in af["field_sets"] for x in fs["fields"]]:
             g = ff.get("getter")
             if g and g["conv"] == "unsafe_into" and ens[0].get("try_from"):
                 w = g["end"] - g["start"]
@@ -320,8 +322,7 @@ def check_c07(c, af, a, mf):
                     return None
                 return {"why": f"variant {v['name']} -> {n} -> {back} does not round-trip", "finding": None}
     # infallible getters are total on every bit pattern of their field
-    fs = af["field_sets"][0]
-    for ff in fs["fields"]:
+    for ff in [x for fs in af["field_sets"] for x in fs["fields"]]:
         g = ff.get("getter")
         if g and g["conv"] == "unsafe_into":
             w = g["end"] - g["start"]
